@@ -56,21 +56,21 @@ func (l *lenModel) init() {
 
 // Model is the adaptive probability model plus coder state of one LZMA stream.
 type Model struct {
-	P         Props
-	isMatch   [nStates << posBitsMax]uint16
-	isRep     [nStates]uint16
-	isRepG0   [nStates]uint16
-	isRepG1   [nStates]uint16
-	isRepG2   [nStates]uint16
-	isRep0L   [nStates << posBitsMax]uint16
-	posSlot   [4][64]uint16
-	posDec    [115]uint16
-	align     [16]uint16
-	lenM      lenModel
-	repLenM   lenModel
-	lit       []uint16
-	State     int
-	Rep       [4]uint32
+	P       Props
+	isMatch [nStates << posBitsMax]uint16
+	isRep   [nStates]uint16
+	isRepG0 [nStates]uint16
+	isRepG1 [nStates]uint16
+	isRepG2 [nStates]uint16
+	isRep0L [nStates << posBitsMax]uint16
+	posSlot [4][64]uint16
+	posDec  [115]uint16
+	align   [16]uint16
+	lenM    lenModel
+	repLenM lenModel
+	lit     []uint16
+	State   int
+	Rep     [4]uint32
 }
 
 // NewModel returns a freshly reset model.
@@ -293,14 +293,14 @@ type Window struct {
 
 // DecodeResult reports how a raw LZMA decode went.
 type DecodeResult struct {
-	Out       []byte
-	Ops       []Op
-	StatesIn  []int // coder state before each op
-	MaxDist   uint32
-	Marker    bool // terminated by the end marker
-	Consumed  int  // input bytes consumed by the range decoder
-	CodeZero  bool // range decoder code == 0 at the end
-	Err       error
+	Out      []byte
+	Ops      []Op
+	StatesIn []int // coder state before each op
+	MaxDist  uint32
+	Marker   bool // terminated by the end marker
+	Consumed int  // input bytes consumed by the range decoder
+	CodeZero bool // range decoder code == 0 at the end
+	Err      error
 }
 
 // DecodeRaw decodes a raw LZMA stream. win holds the dictionary content that
